@@ -292,7 +292,7 @@ func (a address) targetType() reflect.Type {
 		return a.addressedType.Elem()
 	case assignLocalStructSelector,
 		assignNonLocalStructSelector:
-		index := a.em.fb.fn.FieldIndexes[a.op2]
+		index := a.em.fb.fn.FieldIndexes[uint8(a.op2)]
 		typ := a.addressedType
 		if typ.Kind() == reflect.Pointer {
 			typ = typ.Elem()
